@@ -112,6 +112,7 @@ type World struct {
 	prevCommitted []byte
 	LastCommitted int64 // height of the last block the main node committed
 	KeepDisks bool
+	DupKinds map[string]bool
 	DiskAt   map[int64]*simdb.Disk // copy of the main node's disk after each commit (KeepDisks)
 	ReqLog   []BlockReq // executed block requests (for twins)
 	ResLog   []BlockRes
@@ -257,7 +258,7 @@ func (w *World) Step(bo *BlockOp) bool {
 		}
 		return false
 	}
-	view := &View{S: w.Prev, Height: uint64(h), NAcct: w.Sc.Gen.NAcct, Chain: w.Chain, NonceAdd: map[types.Address]uint64{}, Log: w.Log, Issued: w.Issued}
+	view := &View{S: w.Prev, Height: uint64(h), NAcct: w.Sc.Gen.NAcct, Chain: w.Chain, NonceAdd: map[types.Address]uint64{}, Log: w.Log, Issued: w.Issued, DupAcceptedOnly: w.Sc.Params["dup_accepted_only"] == 1}
 	for _, op := range bo.Ops {
 		m := view.Resolve(op)
 		w.Issued = view.Issued
@@ -279,6 +280,13 @@ func (w *World) Step(bo *BlockOp) bool {
 		if r.Code == 0 {
 			w.Stats.Accepted++
 			view.NonceAdd[m.Sender]++
+		}
+		m.Code = r.Code
+		if m.Dup {
+			if w.DupKinds == nil {
+				w.DupKinds = map[string]bool{}
+			}
+			w.DupKinds[fmt.Sprintf("dup:%s/first%d/now%d", m.OrigKind, m.FirstCode, r.Code)] = true
 		}
 		w.countTxFaults(m)
 		w.Log = append(w.Log, m)
